@@ -353,7 +353,7 @@ def gen(rnd, *, core=False, res_choices=(60, 60, 30, 15), subslot=True, alap=Non
             for x in rnd.sample(cands, min(len(cands), rnd.randint(1, 2))):
                 d = {"to": x["path"]}
                 if gaps and rnd.random() < 0.3:
-                    d["gap_min"] = rnd.choice([res, 2 * res, 24 * 60, 90, 45]) if subslot else rnd.choice([res, 2 * res, 24 * 60])
+                    d["gap_min"] = rnd.choice([res, 2 * res, 24 * 60, 90, 45, 48 * 60]) if subslot else rnd.choice([res, 2 * res, 24 * 60, 7 * 24 * 60])
                 if onstart and rnd.random() < 0.15 and not m["alap"]:
                     d["onstart"] = True
                 deps.append(d)
@@ -457,6 +457,17 @@ def spec_text(specs):
     return out
 
 
+def gap_text(mins):
+    """gapduration is calendar time: whole days are written as 'd', whole weeks as 'w', whole hours as 'h'"""
+    if mins and mins % 10080 == 0:
+        return "%dw" % (mins // 10080)
+    if mins and mins % 1440 == 0:
+        return "%dd" % (mins // 1440)
+    if mins and mins % 60 == 0:
+        return "%dh" % (mins // 60)
+    return "%dmin" % mins
+
+
 def limits_text(lim):
     return "limits { " + " ".join("%s %sh" % (k, v) for k, v in lim.items()) + " }"
 
@@ -466,12 +477,15 @@ def render(m, refrnd=None, precrnd=None, extra_header=None, scenarios=None, trai
     L = []
     prec = {}
     skip = set()
+    dup = set()
     if precrnd is not None:
         for t in m["tasks"]:
             for i, d in enumerate(t.get("deps", [])):
                 if not d.get("onstart") and precrnd.random() < 0.5:
                     prec.setdefault(d["to"], []).append((t["path"], d))
                     skip.add((t["path"], i))
+                    if precrnd.random() < 0.2:
+                        dup.add((t["path"], i))     # the same edge ALSO as a bare 'depends' on the other side: the gap of the precedes entry still counts
     if "days" in m:
         dur = "+%dd" % m["days"]
     else:
@@ -580,12 +594,15 @@ def render(m, refrnd=None, precrnd=None, extra_header=None, scenarios=None, trai
         if t.get("deps"):
             ds = []
             for k, d in enumerate(t["deps"]):
-                if (path, k) in skip:
+                if (path, k) in skip and (path, k) not in dup:
                     continue
                 s = relref(path, d["to"], refrnd)
                 opts = []
+                if (path, k) in dup:
+                    ds.append(s)
+                    continue
                 if "gap_min" in d:
-                    opts.append("gapduration %dmin" % d["gap_min"])
+                    opts.append("gapduration %s" % gap_text(d["gap_min"]))
                 if d.get("onstart"):
                     opts.append("onstart")
                 if opts:
@@ -598,7 +615,7 @@ def render(m, refrnd=None, precrnd=None, extra_header=None, scenarios=None, trai
             for q, d in prec[path]:
                 s = relref(path, q, refrnd)
                 if "gap_min" in d:
-                    s += " { gapduration %dmin }" % d["gap_min"]
+                    s += " { gapduration %s }" % gap_text(d["gap_min"])
                 ps.append(s)
             L.append("%s  precedes %s" % (i, ", ".join(ps)))
         for c in children(m, path):
